@@ -125,6 +125,10 @@ def make_grammars(seed, tier):
         g = genrun.G("gk_" + nm, text, meta=meta)
         g.gg = None
         gs.append(g)
+        if meta["memo"] and not meta["leftrec"]:
+            t = genrun.G("gk_" + nm + "n", strip_memo(text), meta=dict(meta, twin_of="gk_" + nm, twin="nomemo", memo=False))
+            t.gg = None
+            gs.append(t)
     return gs
 
 
@@ -139,6 +143,9 @@ def ctx_arg(g):
 
 class Case:
     __slots__ = ("g", "rule", "inp", "impl", "model", "spec")
+
+    def __init__(self):
+        self.impl = self.model = self.spec = None
 
 
 def build(seed, tier, log=vp.log):
@@ -189,24 +196,56 @@ def build(seed, tier, log=vp.log):
         for k, r in zip(ks, res):
             cases[k].impl = parse_impl(r)
     log("stream: implementation ran %d cases, %.1fs" % (len(cases), time.time() - t0))
-    head = ["grammar\t%s\t%s" % (g.gid, g.sexpr) for g in gs if g.sexpr]
-    mreq = ["parse\t%s\t%s\t%s" % (c.g.gid, c.rule.encode().hex(), c.inp.encode().hex()) for c in cases]
-    sreq = ["spec\t%s\t%s\t%s" % (c.g.gid, c.rule.encode().hex(), c.inp.encode().hex()) for c in cases]
-    out = vp.pipe_lines(model, head + mreq + sreq)
-    mo = out[len(head):len(head) + len(cases)]
-    so = out[len(head) + len(cases):]
-    for c, a, b in zip(cases, mo, so):
-        c.model = parse_model(a)
-        c.spec = parse_spec(b)
+    # model and specification: grammars in parallel chunks, each under a time and memory limit; a grammar
+    # that blows the limits (exponential backtracking of an unmemoized twin, say) is isolated and its cases dropped
+    by_g = collections.defaultdict(list)
+    for k, c in enumerate(cases):
+        by_g[c.g.gid].append(k)
+    gl = [g for g in gs if g.sexpr and g.gid in by_g]
+
+    def run_chunk(chunk, timeout):
+        head = ["grammar\t%s\t%s" % (g.gid, g.sexpr) for g in chunk]
+        ks = [k for g in chunk for k in by_g[g.gid]]
+        mreq = ["parse\t%s\t%s\t%s" % (cases[k].g.gid, cases[k].rule.encode().hex(), cases[k].inp.encode().hex()) for k in ks]
+        sreq = ["spec\t%s\t%s\t%s" % (cases[k].g.gid, cases[k].rule.encode().hex(), cases[k].inp.encode().hex()) for k in ks]
+        out = vp.pipe_lines(model, head + mreq + sreq, timeout=timeout, mem_gb=6)
+        return ks, out[len(head):len(head) + len(ks)], out[len(head) + len(ks):]
+
+    skipped = []
+
+    def work(chunk):
+        try:
+            return [run_chunk(chunk, 600)]
+        except Exception:
+            res = []
+            for g in chunk:
+                try:
+                    res.append(run_chunk([g], 90))
+                except Exception:
+                    skipped.append(g.gid)
+            return res
+
+    nchunk = 16 if len(gl) >= 32 else max(1, len(gl) // 2)
+    chunks = [gl[i::nchunk] for i in range(nchunk)]
+    from concurrent.futures import ThreadPoolExecutor
+    with ThreadPoolExecutor(nchunk) as ex:
+        for res in ex.map(work, chunks):
+            for ks, mo, so in res:
+                for k, a, b in zip(ks, mo, so):
+                    cases[k].model = parse_model(a)
+                    cases[k].spec = parse_spec(b)
+    if skipped:
+        log("stream: model exceeded its limits on %d grammars (cases dropped): %s" % (len(skipped), skipped[:8]))
+    cases = [c for c in cases if c.g.gid not in skipped and getattr(c, "model", None) is not None]
     log("stream: model and spec ran, %.1fs" % (time.time() - t0))
     for g in gs:
         g.gg = None   # not picklable / not needed
-    return {"grammars": gs, "cases": cases, "exes": exes, "wall": time.time() - t0}
+    return {"grammars": gs, "cases": cases, "exes": exes, "wall": time.time() - t0, "skipped_grammars": skipped}
 
 
 def get(ctx):
     os.makedirs(STREAM, exist_ok=True)
-    key = hashlib.sha1(("%s|%s|%s|%s" % (vp.repo_hash(), vp.verif_hash(["tools", "lib", "ocaml", "coq/theories", "harness"]),
+    key = hashlib.sha1(("%s|%s|%s|%s" % (vp.repo_hash(), vp.verif_hash(["tools", "lib", "ocaml", "coq/theories", "harness", "corpus"]),
                                          ctx.seed, ctx.tier)).encode()).hexdigest()[:16]
     path = os.path.join(STREAM, "run-%s.pkl" % key)
     if os.path.exists(path):
